@@ -159,6 +159,18 @@ mod driver {
             Value::Object(out)
         })
     }
+    /// C05: handle_dht_message on `data.len` bytes that no decoder accepts: refused by the size check or by the decoder?
+    pub fn dht_message(case: &Value) -> Value {
+        let rt = tokio::runtime::Builder::new_multi_thread().worker_threads(2).enable_all().build().unwrap();
+        rt.block_on(async {
+            let mgr = manager("verif-local").await;
+            let data = vec![0xffu8; (un(case, "data.len") as usize).min(1 << 22)];
+            let r = mgr.handle_dht_message(&data, &"verif-sender".to_string()).await;
+            let text = r.as_ref().err().map(|e| e.to_string()).unwrap_or_default();
+            json!({"is_err": r.is_err(), "refused_before_decode": r.is_err() && text.contains("exceeds maximum allowed size")})
+        })
+    }
+
     /// send_dht_request towards a peer that is not connected: the transport send fails (the only environment outcome a native run can force)
     pub fn dht_send(case: &Value) -> Value {
         if un(case, "env.send_ok") == 1 {
@@ -243,6 +255,7 @@ fn verif_replay_entry() {
     let obs = match h.as_str() {
         "dht_response" => driver::dht_response(&case),
         "dht_send" => driver::dht_send(&case),
+        "dht_message" => driver::dht_message(&case),
         other => panic!("unknown driver {other}"),
     };
     println!("VERIF-OBS {}", obs);
